@@ -45,7 +45,10 @@ PlainLeaves == <<
   L("const-str", TConst(JStr("x")), FALSE),       L("const-int", TConst(JInt(2)), FALSE),
   L("time",    TTime, FALSE),                     L("any",     TAny, FALSE),
   L("union-str-int", TUnion(<<TStr(-1, -1), TInt("int64", NoB, NoB)>>), FALSE),
-  L("union-str-bool-num", TUnion(<<TStr(-1, -1), TBool, TNum("float64", NoB, NoB)>>), FALSE)
+  L("union-str-bool-num", TUnion(<<TStr(-1, -1), TBool, TNum("float64", NoB, NoB)>>), FALSE),
+  \* unions of scalars whose branches are different NUMERIC kinds: 1 and 1.5 must both survive
+  L("union-int-num", TUnion(<<TInt("int64", NoB, NoB), TNum("float64", NoB, NoB)>>), FALSE),
+  L("union-int32-int64", TUnion(<<TInt("int32", NoB, NoB), TInt("int64", NoB, NoB)>>), FALSE)
 >>
 
 (* ------------------------------ positions ------------------------------- *)
@@ -74,7 +77,14 @@ DeepPos == <<
   Pos("recursive", "opt", <<"rec">>),                  Pos("ref>nullable", "req", <<"refnull">>),
   \* three levels: collections of collections of referenced structs
   Pos("array>array>ref", "req", <<"ref", "arr", "arr">>), Pos("map>array>ref", "req", <<"ref", "arr", "map">>),
-  Pos("array>map>ref", "req", <<"ref", "map", "arr">>),   Pos("map>map>ref", "req", <<"ref", "map", "map">>)
+  Pos("array>map>ref", "req", <<"ref", "map", "arr">>),   Pos("map>map>ref", "req", <<"ref", "map", "map">>),
+  \* maps nested in maps inside one generated method (keys differ per level, see Semantics!MapRank)
+  Pos("map>map", "req", <<"map", "map">>),                Pos("map>array>map", "req", <<"map", "arr", "map">>),
+  \* references to NAMED collections (definitions that are arrays / maps, not structs): optional and nullable fields
+  \* become pointers to the named slice / map type
+  Pos("optional-named-array", "opt", <<"refarr">>),       Pos("optional-named-map", "opt", <<"refmap">>),
+  Pos("nullable-named-array", "null", <<"refarr">>),      Pos("nullable-named-map", "null", <<"refmap">>),
+  Pos("named-array", "req", <<"refarr">>),                Pos("named-map>map", "req", <<"map", "refmap">>)
 >>
 
 WT(t, defs) == [t |-> t, defs |-> defs]
@@ -87,6 +97,8 @@ Wrap(w, x, l) ==
     [] w = "ref"      -> WT(TRef("C" \o s), <<Def("C" \o s, TStruct(<<F("c", x)>>))>>)
     [] w = "refopt"   -> WT(TRef("C" \o s), <<Def("C" \o s, TStruct(<<FOpt("c", x), F("d", TBool)>>))>>)
     [] w = "refnull"  -> WT(TRef("C" \o s), <<Def("C" \o s, TStruct(<<FNull("c", x), F("d", TBool)>>))>>)
+    [] w = "refarr"   -> WT(TRef("L" \o s), <<Def("L" \o s, TArr(x))>>)
+    [] w = "refmap"   -> WT(TRef("M" \o s), <<Def("M" \o s, TMap(x))>>)
     [] w = "rec"      -> WT(TRef("N" \o s), <<Def("N" \o s, TStruct(<<F("c", x), FOpt("next", TRef("N" \o s))>>))>>)
     [] w = "union"    -> WT(TDUnion("kind", <<"A" \o s, "B" \o s>>),
                             <<Def("A" \o s, TStruct(<<F("kind", TConst(JStr("a"))), F("c", x)>>)),
@@ -160,6 +172,15 @@ FixedList == <<
       FOpt("oc", TRef("Child")), FOpt("oaa", TArr(TArr(TStr(-1, -1)))), FOpt("oin", TStruct(<<F("z", TStr(-1, -1))>>)),
       F("a", TArr(TStr(-1, -1))), F("m", TMap(TInt("int64", NoB, NoB)))>>)),
     Child>>, TRUE),
+  \* optional / nullable date-times and numeric unions side by side (C01: absent, null and present date-times; 1 and 1.5)
+  Fixed("times-and-numeric-unions", <<
+    Def("Root", TStruct(<<
+      F("createdAt", TTime), FOpt("archivedAt", TTime), FNull("deletedAt", TTime), FOptNull("seenAt", TTime),
+      F("stamps", TArr(TTime)), FOpt("byKey", TMap(TTime)),
+      F("value", TUnion(<<TInt("int64", NoB, NoB), TNum("float64", NoB, NoB)>>)),
+      FOpt("ovalue", TUnion(<<TInt("int64", NoB, NoB), TNum("float64", NoB, NoB)>>)),
+      F("wide", TUnion(<<TInt("int32", NoB, NoB), TInt("int64", NoB, NoB)>>)),
+      F("values", TArr(TUnion(<<TNum("float64", NoB, NoB), TStr(-1, -1)>>)))>>))>>, FALSE),
   \* three-level nesting of constraints: map of arrays of referenced structs holding a map
   Fixed("deep", <<
     Def("Root", TStruct(<<F("m", TMap(TArr(TRef("Mid"))))>>)),
